@@ -173,6 +173,24 @@ def append (p : Profile) (x : P.State) (data : List (BitVec 8)) : R P.State := d
       let k'' ← setTo p k' r.2
       pure ⟨r.1, k''⟩
 
+/-- the buffering skeleton of `append` that all five back ends duplicate textually (portable.rs:325-341,
+x86/sse.rs:350-366, x86/avx.rs:324-340, aarch64.rs:305-321, wasm.rs:304-320), with its panic points, generic
+in the state type and the per-packet update (the SIMD updates are straight-line intrinsic code without
+panic points) -/
+def appendG {S : Type} (p : Profile) (upd : S → List (BitVec 8) → S) (x : S × Pkt) (data : List (BitVec 8)) : R (S × Pkt) := do
+  if x.2.isEmpty then
+    let r := absorb upd data.length x.1 data
+    let k ← setTo p x.2 r.2
+    pure (r.1, k)
+  else
+    match ← fill p x.2 data with
+    | (k', none) => pure (x.1, k')
+    | (k', some tail) =>
+      let s1 := upd x.1 k'.buf
+      let r := absorb upd tail.length s1 tail
+      let k'' ← setTo p k' r.2
+      pure (r.1, k'')
+
 /-- `PortableHash::checkpoint` (repaired form): the lane loop uses `split_at_mut(8)` on a 164-byte
 cursor 16 times, then `split_at_mut(32)`, `buffered[..pending.len()].copy_from_slice(pending)`,
 `rest.copy_from_slice(&u32::to_le_bytes(..))` -/
